@@ -689,6 +689,11 @@ func renderEvents(evs []cEvent) []string {
 func c07Check(sc c07Scenario, kind drv.Kind) func(x *engine.Execution) *engine.Violation {
 	return func(x *engine.Execution) *engine.Violation {
 		class := backendClass(kind)
+		if kind.IsDir() {
+			// a real directory behaves differently from MemMapFs under concurrent
+			// overwrites (known finding): keep the two apart in signatures
+			class = "fs-dir"
+		}
 		ex := x.Data.(*c07Exec)
 		if x.Result.Deadlock {
 			return &engine.Violation{Sig: sig("C07", class, sc.name, "deadlock"), Msg: fmt.Sprintf("deadlock: blocked threads %v", x.Result.Blocked), History: renderEvents(ex.events)}
